@@ -333,10 +333,15 @@ def resetall_rule(ctx, rep, rule="C05.RESETALL"):
         bad.append("no loop over the managed attributes")
     else:
         loop = loops[0]
-        if "attrs" not in ast.unparse(loop.iter):
+        from .r5rules import _subst
+        if "attrs" not in _subst(fn, loop.iter):
             bad.append(f"iterates `{ast.unparse(loop.iter)}` rather than the managed attributes")
         inner = [t for t in ast.walk(loop) if isinstance(t, ast.Try) and any("AttributeError" in ast.unparse(h.type or ast.Constant(0)) for h in t.handlers)]
-        outer = [t for t in walk_own(fn) if isinstance(t, ast.Try) and any(x is loop for x in ast.walk(t))]
+        # `with contextlib.suppress(AttributeError):` is the same per-attribute handler
+        inner += [t for t in ast.walk(loop) if isinstance(t, ast.With) and any(
+            isinstance(it.context_expr, ast.Call) and ast.unparse(it.context_expr.func).split(".")[-1] == "suppress"
+            and any("AttributeError" in ast.unparse(a_) for a_ in it.context_expr.args) for it in t.items)]
+        outer = [t for t in walk_own(fn) if isinstance(t, (ast.Try, ast.With)) and any(x is loop for x in ast.walk(t)) and "AttributeError" in ast.unparse(t)]
         dels = [n for n in ast.walk(loop) if isinstance(n, ast.Call) and ast.unparse(n.func) == "delattr"]
         if not dels:
             bad.append("attributes are not reset through delattr")
@@ -354,7 +359,7 @@ def check(ctx, rep):
     from . import metarules, r5rules
     r5rules.setattr_rules(ctx, rep, "C05.DUNDER", ("forward", "prepare", "default"))
     r5rules.varkw_not_rebound(ctx, rep, "C05.KW")
-    r5rules.forward_verbatim(ctx, rep, "C05.FWD")
+    r5rules.forward_verbatim(ctx, rep, "C05.FLAGS")
     shared.own_namespace_lookups(ctx, rep, "C05.NS")
     shared.unused_params(ctx, rep, "C05.PARAM", ["spec_classes.utils.mutation", "spec_classes.methods.scalar", "spec_classes.methods.toplevel"])
     metarules.preparer_registration(ctx, rep, "C05.PREP")
